@@ -121,7 +121,7 @@ fn sheet_prefix(target: u32, own: u32) -> String {
 }
 
 /// An acyclic workbook: a formula only reads cells of lower rank in a random order.
-fn gen_acyclic(rng: &mut StdRng, nsheets: u32) -> Cells {
+pub fn gen_acyclic(rng: &mut StdRng, nsheets: u32) -> Cells {
     let en = Dialect::new("en", "en");
     let mut all: Vec<(u32, i32, i32)> = vec![];
     for s in 0..nsheets {
@@ -195,7 +195,7 @@ fn build_model(nsheets: u32, cells: &Cells) -> Result<Model<'static>, String> {
     Ok(m)
 }
 
-fn kind(v: &V) -> String {
+pub fn kind(v: &V) -> String {
     match v {
         V::Num(_) => "num".into(),
         V::Str(_) => "str".into(),
